@@ -10,7 +10,8 @@ from rv.hooks import rpc as R
 
 LEVEL = 'exploration'
 SHARDS = {'quick': 4, 'thorough': 16}
-PREPS = ['fill', 'autofill', 'fill,fill', 'fill,autofill', 'autofill,autofill', 'autofill,fill']
+PREPS = ['fill', 'autofill', 'fill,fill', 'fill,autofill', 'autofill,autofill', 'autofill,fill', 'bulk-of-filled', 'bulk-of-filled']
+POLICIES = ['applied', 'unprocessed', 'unprocessed-pairs', 'alternate', 'unprocessed-nothing-applied']
 INJECT = ['ok', 'fail-reinject', 'fail-redo', 'ok']
 AFTER = ['none', 'bake', 'foreign', 'none']
 _key = {}
@@ -28,34 +29,47 @@ def tx(i):
             'destination': 'tz1VSUr8wwNhLAzempoch5d6hLRiTh8Cjcjb'}
 
 
-def run_history(steps, start_counter):
+def run_history(steps, start_counter, policy='applied'):
     """steps: list of (n_contents, prep, inject, after). Returns node log + annotations per injection."""
     from pytezos.context.impl import ExecutionContext
     from pytezos.operation.group import OperationGroup
     from pytezos.rpc import RpcError, RpcNode, ShellQuery
     key = the_key(None)
     node = ND.Node(key.public_key_hash(), counter=start_counter)
+    node.mempool_policy = policy
     t = R.Transport(node.handler)
     notes = []          # per injection attempt: features of the calls that prepared it
     errors = []
     with R.installed(t):
         cx = ExecutionContext(key=key, shell=ShellQuery(RpcNode('http://node.test')))
-        consumed_since_reset = 0     # counters handed out by fill() since the context last dropped its cached counter
+        cursor = None     # model of the counter cursor cached on the client context (KNOWN_FINDINGS: it is not re-read between preparations)
         for si, (n, prep, inj, after) in enumerate(steps):
             og = OperationGroup(context=cx)
             for i in range(n):
                 og = og.operation(tx(i))
 
             def prepare():
-                nonlocal consumed_since_reset
+                nonlocal cursor
                 out = None
                 info = {'preps': [], 'n': n}
                 for p in prep.split(','):
                     info['preps'].append(p)
                     info['pending_at_last_prep'] = node.pending_of_account()
-                    info['consumed_before_last_prep'] = consumed_since_reset
-                    out = og.fill() if p == 'fill' else og.autofill()
-                    consumed_since_reset += n
+                    if cursor is None:
+                        cursor = node.counter
+                    info['cursor_ahead_of_node'] = cursor - node.counter
+                    info['predicted_by_cursor'] = [cursor + i + 1 + node.pending_of_account() for i in range(n)]
+                    cursor += n
+                    if p == 'bulk-of-filled':
+                        # a group that was already filled (it carries counters) is batched again: the batch gets fresh counters
+                        from pytezos.client import PyTezosClient
+                        pre = og.fill()
+                        out = PyTezosClient(context=cx).bulk(pre).fill()
+                        info['cursor_ahead_of_node'] = 0          # the batch lives on a context of its own
+                        info['predicted_by_cursor'] = [node.counter + i + 1 + node.pending_of_account() for i in range(n)]
+                        info['via_bulk'] = True
+                    else:
+                        out = og.fill() if p == 'fill' else og.autofill()
                 return out, info
             try:
                 filled, info = prepare()
@@ -68,7 +82,8 @@ def run_history(steps, start_counter):
                     except RpcError:
                         pass
                     notes.append(dict(info, failed=True))
-                    consumed_since_reset = 0      # inject() drops the cached counter before posting
+                    if not info.get('via_bulk'):
+                        cursor = None      # inject() drops the cached counter (of the context the group lives on) before posting
                     if inj == 'fail-redo':
                         filled, info = prepare()
                         signed = filled.sign()
@@ -76,7 +91,8 @@ def run_history(steps, start_counter):
                         info = dict(info, reinjected_same_bytes=True)
                 signed.inject(min_confirmations=0)
                 notes.append(dict(info, failed=False))
-                consumed_since_reset = 0
+                if not info.get('via_bulk'):
+                    cursor = None
             except Exception as e:
                 errors.append('%s: %r' % (type(e).__name__, e))
                 break
@@ -87,11 +103,12 @@ def run_history(steps, start_counter):
     return node, notes, errors
 
 
-def judge(ctx, steps, start_counter):
-    case = {'steps': [list(s) for s in steps], 'start_counter': start_counter}
-    ctx.case((tuple(steps), start_counter), nontrivial=len(steps) > 1 or ',' in steps[0][1] or steps[0][2] != 'ok')
+def judge(ctx, steps, start_counter, policy='applied'):
+    case = {'steps': [list(s) for s in steps], 'start_counter': start_counter, 'mempool_policy': policy}
+    ctx.count('mempool_' + policy)
+    ctx.case((tuple(steps), start_counter, policy), nontrivial=len(steps) > 1 or ',' in steps[0][1] or steps[0][2] != 'ok')
     ctx.count('histories')
-    node, notes, errors = run_history(steps, start_counter)
+    node, notes, errors = run_history(steps, start_counter, policy)
     if node.unknown:
         return ctx.inconc('simulated node lacks endpoint %r' % (node.unknown[:2],))
     if errors:
@@ -118,17 +135,11 @@ def judge(ctx, steps, start_counter):
             continue
         if any(b != a + 1 for a, b in zip(got, got[1:])):
             return ctx.violation('C25|counters-not-consecutive', 'counters %r' % got, case)
-        delta = got[0] - want[0]
-        # attribute the offset to the known mechanism of the counter cursor (see KNOWN_FINDINGS.txt); anything else is unexplained
-        extra = info.get('consumed_before_last_prep', 0)
-        ignores = 0
-        why = []
-        if extra:
-            why.append('cursor-advanced-by-earlier-preparations')
-        if info.get('reinjected_same_bytes'):
-            why = ['same-bytes-reinjected-after-failure'] if delta == 0 else why
-        if delta == extra + ignores and why:
-            sig = 'C25|counter-offset|' + '+'.join(why)
+        # attribute the offset to the known mechanism of the counter cursor (see KNOWN_FINDINGS.txt): the cursor cached on the
+        # context was ahead of / behind the node when the group was prepared, and the injected counters are exactly what that
+        # cursor predicts; anything else is unexplained
+        if info.get('cursor_ahead_of_node') and got == info.get('predicted_by_cursor'):
+            sig = 'C25|counter-offset|cursor-advanced-by-earlier-preparations'
         else:
             sig = 'C25|counter-offset|unexplained'
         return ctx.violation(sig, 'injected counters %r, node counter %d + %d pending -> expected %r (history %r)'
@@ -151,19 +162,19 @@ def run(ctx):
     for s in steps1:
         k += 1
         if ctx.mine(k):
-            judge(ctx, [s], rng.choice([0, 41, 2 ** 31]))
+            judge(ctx, [s], rng.choice([0, 41, 2 ** 31]), POLICIES[k % len(POLICIES)])
     simple = [(n, p, i, a) for n in (1, 2) for p in ('fill', 'autofill') for i in ('ok', 'fail-redo') for a in ('none', 'bake')]
     for s1, s2 in itertools.product(simple, repeat=2):
         k += 1
         if ctx.mine(k):
-            judge(ctx, [s1, s2], 7)
+            judge(ctx, [s1, s2], 7, POLICIES[k % len(POLICIES)])
     for _ in range(ctx.pick(150, 6000) // ctx.nshards):
         steps = [(rng.choice([1, 1, 2, 3]), rng.choice(PREPS), rng.choice(INJECT), rng.choice(AFTER)) for _ in range(rng.randint(2, ctx.pick(3, 4)))]
-        judge(ctx, steps, rng.choice([0, 5, 127, 2 ** 40]))
+        judge(ctx, steps, rng.choice([0, 5, 127, 2 ** 40]), rng.choice(POLICIES))
     ctx.require('histories', 50)
     ctx.require('injections_checked', 100)
     ctx.require('counters_correct', 20)
 
 
 def replay(ctx, case):
-    judge(ctx, [tuple(s) for s in case['steps']], case['start_counter'])
+    judge(ctx, [tuple(s) for s in case['steps']], case['start_counter'], case.get('mempool_policy', 'applied'))
